@@ -1,4 +1,5 @@
 import Votca.Model.C06
+import Votca.Model.C06F
 /-! line-protocol handlers for C06 (core only) -/
 namespace Driver.C06
 open Votca Votca.C06
@@ -77,10 +78,75 @@ def handleKkt (args : List String) : Verdict :=
   | some (v, []) => v
   | _ => { agree := false, msg := "bad-line", tag := "bad" }
 
+def handleFmatch (args : List String) : Verdict :=
+  let p : P Verdict := do
+    let _sid ← tok
+    let n ← nat; let frames ← nat; let fpb ← nat; let cls ← nat
+    let L ← rat
+    let tm ← many (do let t ← nat; let m ← nat; pure (t, m)) n
+    let nb ← nat
+    let bonds ← many (do let a ← nat; let b ← nat; pure (a, b)) nb
+    let ni ← nat
+    let inters ← many (do
+      let bd ← nat; let t1 ← nat; let t2 ← nat
+      let mn ← rat; let mx ← rat; let st ← rat
+      let k ← nat
+      let star ← many rat k
+      pure ({ bonded := bd == 1, t1 := t1, t2 := t2, mn := mn, mx := mx, step := st, star := star } : C06F.Inter)) ni
+    let fr ← many (many (do
+      let x ← rat; let y ← rat; let z ← rat; let fx ← rat; let fy ← rat; let fz ← rat
+      pure ((⟨x, y, z⟩ : V3), (⟨fx, fy, fz⟩ : V3))) n) frames
+    let outTok ← tok
+    if outTok != "OUT" then failure else
+    let status ← tok
+    let nt ← nat
+    let tabs ← many (do let k ← nat; let rows ← nat; let vals ← many rat (2 * rows); pure (k, vals)) nt
+    let sys : C06F.Sys := { L := L, types := tm.map (·.1), mols := tm.map (·.2), bonds := bonds, inters := inters }
+    let tag := s!"fmatch-{if cls == 1 then "constrained" else "plain"}-{if frames / fpb > 1 then "blocks" else "oneblock"}{if nb > 0 then "-bonded" else ""}"
+    -- only whole blocks are processed
+    let nblocks := frames / fpb
+    let used := fr.take (nblocks * fpb)
+    -- every interval of every grid must be sampled in every block, otherwise the least-squares problem is not well posed
+    let blocks := (List.range nblocks).map fun b => (used.drop (b * fpb)).take fpb
+    let wellSampled := blocks.all fun blk => inters.all fun it =>
+      let xs := C06F.gridOf it
+      let rs := blk.flatMap fun f => (C06F.samples sys it (f.map (·.1))).map fun q => q.2.2.2
+      (C06F.coverage xs rs).all fun c => c ≥ 3
+    if !wellSampled then pure { tag := "fmatch-skip-under-sampled" } else
+    if status != "ok" then pure { agree := false, msg := "csg_fmatch failed: " ++ status, tag := "fmatch-error" } else
+    if tabs.length != ni then pure { agree := false, propOk := false, msg := s!"FMATCH-TABLES {tabs.length} force tables written for {ni} interactions", tag := tag } else
+    let splines := (inters.zip tabs).map fun (it, (_, vals)) =>
+      let rows := vals.length / 2
+      let xs := (List.range rows).map fun i => vals.getD (2 * i) 0
+      let fs := (List.range rows).map fun i => -(vals.getD (2 * i + 1) 0)
+      (C06F.gridOf it, xs, fs)
+    let gridOk := splines.all fun (g, xs, _) => g.length == xs.length && (g.zip xs).all fun (a, b) => absRat (a - b) ≤ 1 / 10 ^ 9
+    if !gridOk then pure { agree := false, propOk := false, msg := "FMATCH-GRID the x column of a force table is not the spline grid", tag := tag } else
+    match splines.mapM (fun (g, _, fs) => (C06F.naturalF2 g fs).map fun f2 => (g, fs, f2)) with
+    | none => pure { agree := false, msg := "natural spline system singular", tag := tag }
+    | some tabsM =>
+      let fmax := used.foldl (fun m f => f.foldl (fun m2 q => let a := absRat q.2.x + absRat q.2.y + absRat q.2.z; if m2 < a then a else m2) m) 1
+      let bad := used.zipIdx.findSome? fun (f, fi) =>
+        let pred := C06F.predict sys tabsM (f.map (·.1))
+        ((pred.zip (f.map (·.2))).zipIdx.find? fun ((a, b), _) =>
+          !(absRat (a.x - b.x) + absRat (a.y - b.y) + absRat (a.z - b.z) ≤ fmax / 10 ^ 5)).map fun ((a, b), bi) =>
+            s!"frame {fi} bead {bi}: force from the written tables ({showR a.x},{showR a.y},{showR a.z}) reference ({showR b.x},{showR b.y},{showR b.z})"
+      let starOk := (inters.zip tabsM).all fun (it, (_, fs, _)) =>
+        let sc := it.star.foldl (fun m x => if m < absRat x then absRat x else m) 1
+        (it.star.zip fs).all fun (a, b) => absRat (a - b) ≤ sc / 10 ^ 4
+      pure { agree := bad.isNone && starOk, propOk := bad.isNone, tag := tag,
+             msg := match bad with
+               | some m => "FMATCH-FORCES " ++ m
+               | none => "written tables differ from the generating functions although they reproduce the forces" }
+  match p.run args with
+  | some (v, []) => v
+  | _ => { agree := false, msg := "bad-line", tag := "bad" }
+
 def handle (args : List String) : Verdict :=
   match args with
   | "imc" :: rest => handleImc rest
   | "kkt" :: rest => handleKkt rest
+  | "fmatch" :: rest => handleFmatch rest
   | "kkt-error" :: _ => { agree := false, propOk := false, msg := "KKT linalg_constrained_qrsolve threw on a well-posed problem", tag := "kkt-error" }
   | _ => { agree := false, msg := "bad-line", tag := "bad" }
 
